@@ -24,7 +24,7 @@ LEVEL_NOTE = ("Trusted: Lean kernel; axioms propext/Classical.choice/Quot.sound;
               "streams as hypothesis, protobuf marshalling a parameter with a left-inverse hypothesis; os.RemoveAll/MkdirAll/Create/Symlink are "
               "assumed to behave as the pure FS functions (sampled by the tie). Not modelled: permission errors, special files, symlinks in the "
               "ancestor chain of the destination or at a file output path, non-UTF-8 names (protobuf rejects them at write time), mode bits other "
-              "than 'some executable bit set', the concurrency of the restore goroutines (missing-blob-in-directory hang = F-errchan, property C04).")
+              "than 'some executable bit set', the interleaving of the restore goroutines (only their joint result).")
 TECHNIQUE = "Lean 4 proof over an executable model + differential correspondence with the real output handlers + before/after listing oracle"
 OBLIGATIONS = [
     "Grog.C06.restoreDir_writeDir",
@@ -142,7 +142,7 @@ def gen_case(rng, i, scratch, quick):
     # families around the restore gate
     r = rng.random()
     if r < 0.06:
-        case["drop"] = ["tree" if meta["kind"] == "dir" else "file"]
+        case["drop"] = [rng.choice(["tree", "dirfiles", "dirfiles"]) if meta["kind"] == "dir" else "file"]
         meta["drop"] = True
     elif r < 0.16:
         outs = [list(o) for o in case["outputs"]]
@@ -252,7 +252,7 @@ def compare(case, x, y):
     return diffs
 
 
-def fixed_cases(scratch):
+def fixed_cases(scratch, quick=True):
     """targeted families (corpus): the two repaired defects and boundary shapes"""
     out = []
 
@@ -280,6 +280,30 @@ def fixed_cases(scratch):
         for prior in (D(), D(("p", D(("out", t)))), D(("p", D(("out", F("file"))))), D(("p", D(("out", D(("stale", F("s"))))))) ):
             out.append((case(D(("p", D(("out", t)))), prior, [["dir", "out"]]),
                         {"kind": "dir", "prior": "shape", "size": S.size(t), "depth": S.depth(t), "fam": "shapes"}))
+    # boundary sizes (buffer sizes, io.Copy chunks, powers of two) for file outputs and for files inside a directory output
+    def pat(nbytes, salt=0):
+        return "".join(chr((i * 7 + salt) % 251) for i in range(nbytes))
+    sizes = [0, 1, 4095, 4096, 4097, 32767, 32768, 32769, 65535, 65536, 65537] + ([] if quick else [1048577])
+    for k, nb in enumerate(sizes):
+        f = F(pat(nb, k), k % 2 == 0)
+        ws = D(("p", D(("big.bin", f))))
+        for prior in (D(("p", D())), D(("p", D(("big.bin", F(f[1][: nb // 2], not f[2]))))), D(("p", D(("big.bin", F(f[1][:-1] + "!", f[2])))))):
+            out.append((case(ws, prior, [["file", "big.bin"]]), {"kind": "file", "prior": "boundary-size", "size": nb, "depth": 0, "fam": "sizes"}))
+    t = D(*[("s%d" % nb, F(pat(nb, 3), nb % 2 == 1)) for nb in (4096, 32768, 32769, 65537)])
+    out.append((case(D(("p", D(("out", t)))), D(("p", D(("out", S.mutate_tree(__import__("random").Random(5), t))))), [["dir", "out"]]),
+                {"kind": "dir", "prior": "boundary-size", "size": S.size(t), "depth": 1, "fam": "sizes"}))
+    # fan-out around channel / batch capacities
+    for fan in ((63, 64, 65, 129, 257) if quick else (63, 64, 65, 127, 128, 129, 255, 256, 257, 1025)):
+        t = D(*[("f%04d" % k, F("c%d" % (k % 7), k % 3 == 0)) for k in range(fan)])
+        for prior, extra in ((D(), {}), (D(("p", D(("out", D(*[("f%04d" % k, F("stale")) for k in range(0, fan, 2)]))))), {}), (D(), {"drop": ["dirfiles"]})):
+            out.append((case(D(("p", D(("out", t)))), prior, [["dir", "out"]], **extra),
+                        {"kind": "dir", "prior": "fan-out", "size": fan + 1, "depth": 1, "fam": "fanout", "drop": bool(extra)}))
+    # structured near-misses: identical content with different executable bits, names that are prefixes of each other, a symlink
+    # whose target is a sibling's name, file <-> directory of the same name, empty file vs empty dir vs missing
+    t = D(("a", F("x")), ("ab", F("x", True)), ("a.b", D()), ("abc", L("a")), ("a b", F("")), ("e", D()), ("z", D(("a", F("x", True)))))
+    swapped = D(("a", D(("x", F("x")))), ("ab", F("x", False)), ("a.b", F("")), ("abc", L("ab")), ("a b", D()), ("z", F("x")))
+    for prior in (D(), D(("p", D(("out", swapped)))), D(("p", D(("out", D(("a", F("x")), ("ab", F("x")), ("e", F(""))))))), D(("p", D(("out", t))))):
+        out.append((case(D(("p", D(("out", t)))), prior, [["dir", "out"]]), {"kind": "dir", "prior": "near-miss", "size": S.size(t), "depth": 2, "fam": "near-miss"}))
     return out
 
 
@@ -288,13 +312,14 @@ def run(ctx):
     n = 700 if quick else 12000
     scratch = ctx.scratch("c06")
     cases = []
-    for c, m in fixed_cases(scratch):
+    fixed = fixed_cases(scratch, quick)
+    for c, m in fixed:
         cases.append((c, m))
     for i in range(n):
         c, m, _ = gen_case(ctx.rng, i, scratch, quick)
         cases.append((c, m))
     reqs = [c for c, _ in cases]
-    ctx.coverage["rule"] = (f"{len(fixed_cases(scratch))} targeted cases + {n} generated (tree | file | bin output) x prior destination state "
+    ctx.coverage["rule"] = (f"{len(fixed)} targeted cases (repaired defects, tree shapes, boundary file sizes 0..65537, fan-out 63..257, near-miss names/kinds) + {n} generated (tree | file | bin output) x prior destination state "
                             "(absent, absent parents, same, other tree, mutated: stale extras/truncated/modified/flipped bits/kind changes, file at dst, "
                             "empty dir, dangling link at dst) x restore-gate families (dropped blob, declared outputs permuted/extra/retyped/renamed); trees: depth<=6, "
                             "fan-out<=8, duplicate contents and sub-directories, empty files/dirs, symlinks incl. dangling, executable bits, awkward names; "
@@ -336,6 +361,22 @@ def run(ctx):
             ctx.sample({"outputs": c["outputs"], "pkg": c["pkg"], "cached_tree_nodes": m["size"], "depth": m["depth"], "prior": m["prior"],
                         "load": x.get("load"), "backend_gets": x.get("gets"), "cas_blobs": x.get("nblobs"), "distinct_child_dirs": x.get("nchildren"),
                         "ws": c["ws"] if m["size"] < 12 else "(omitted: %d nodes)" % m["size"]}, limit=4)
+    # determinism: the same case three more times must give the same result (goroutine / map iteration order)
+    rep_idx = [i for i, (c, m) in enumerate(cases) if m.get("size", 0) > 4 and m["kind"] == "dir"][:: max(1, len(cases) // 25)][:25]
+    rep_out = S.impl(ctx, [cases[i][0] for i in rep_idx for _ in range(3)]) or []
+    nondet = 0
+    for j, i in enumerate(rep_idx):
+        ref = impl[i]
+        for x in rep_out[3 * j: 3 * j + 3]:
+            same = all(S.jdump(S.canon(x.get(k)) if k == "after" else x.get(k)) == S.jdump(S.canon(ref.get(k)) if k == "after" else ref.get(k))
+                       for k in ("write", "load", "nblobs", "nchildren", "gets", "after") if ref.get("load") == "ok" or k in ("write", "load"))
+            if not same:
+                nondet += 1
+                ctx.violation("the same cache write + restore gives different results when repeated", {"kind": "oracle", "oracle": "determinism under repetition",
+                              "request": cases[i][0], "meta": cases[i][1], "first": {k: ref.get(k) for k in ("write", "load", "nblobs", "nchildren", "gets")},
+                              "again": {k: x.get(k) for k in ("write", "load", "nblobs", "nchildren", "gets")}}, signature="nondeterministic-restore")
+    ctx.coverage["repeated_cases"] = len(rep_idx) * 3
+    ctx.coverage["nondeterministic"] = nondet
     ctx.coverage["distinct_nontrivial"] = len(seen)
     ctx.coverage["distribution"] = dist
     ctx.coverage["oracle_failures"] = oracle_fail
